@@ -10,6 +10,7 @@ pub mod c03;
 pub mod c04;
 pub mod c05;
 pub mod c07;
+pub mod c08;
 pub mod c09;
 pub mod c10;
 pub mod c11;
@@ -33,6 +34,7 @@ pub const ALL: &[Property] = &[
     Property { id: "C04", run: c04::run, replay: c04::replay },
     Property { id: "C05", run: c05::run, replay: c05::replay },
     Property { id: "C07", run: c07::run, replay: c07::replay },
+    Property { id: "C08", run: c08::run, replay: c08::replay },
     Property { id: "C09", run: c09::run, replay: c09::replay },
     Property { id: "C10", run: c10::run, replay: c10::replay },
     Property { id: "C11", run: c11::run, replay: c11::replay },
